@@ -251,10 +251,14 @@ class TimeDomain(ZoneDomain):
                         return AVal.top()
                     elo, _ = self.interval(ev, s)
                     extra = ((ZERO, 0.0, INF),) if elo >= 0 else ()
+                    # what the latest floor multiple of this period was taken of (read by C08 R08.6)
+                    s.aux[f'multof:{norm(pn)}'] = ev.base if (ev.base is not None and ev.lo == 0 == ev.hi) else (
+                        f'={ev.lo:g}' if ev.base is None and ev.lo == ev.hi else '?')
                     if ev.base is not None:
+                        # the tag remembers what the multiple was taken of: (kind, period, numerator)
                         return AVal(ev.base, ev.lo - phi, ev.hi, pv.isint, extra,
-                                    ('mult', norm(pn)))
-                    return AVal(None, ev.lo - phi, ev.hi, False, extra, ('mult', norm(pn)))
+                                    ('mult', norm(pn), ev.base if ev.lo == 0 == ev.hi else ''))
+                    return AVal(None, ev.lo - phi, ev.hi, False, extra, ('mult', norm(pn), ''))
         # A + r where d = X - A exactly and r relates to d
         if isinstance(e.op, ast.Add):
             a = self.eval(e.left, s)
@@ -269,7 +273,7 @@ class TimeDomain(ZoneDomain):
                     for var, lo, hi in dur.extra:
                         if var == ZERO:
                             extra.append((inst.base, max(lo, dlo), min(hi, dhi)))
-                    tag = ('base+mult', inst.base, dur.tag[1]) if dur.tag[:1] == ('mult',) else ()
+                    tag = ('base+mult', inst.base, dur.tag[1], *dur.tag[2:3]) if dur.tag[:1] == ('mult',) else ()
                     return AVal(df[0], dur.lo, dur.hi, inst.isint and dur.isint, tuple(extra), tag)
             # generic: keep the tag and absolute facts of a duration added to an instant
             for inst, dur in ((a, b), (b, a)):
@@ -279,7 +283,7 @@ class TimeDomain(ZoneDomain):
                         if var == ZERO:
                             dlo, dhi = max(dlo, lo), min(dhi, hi)
                     return AVal(inst.base, dlo, dhi, inst.isint and dur.isint, (),
-                                ('base+mult', inst.base, dur.tag[1]))
+                                ('base+mult', inst.base, dur.tag[1], *dur.tag[2:3]))
         return super()._binop(e, s)
 
     # -- statements ---------------------------------------------------------------
